@@ -32,9 +32,57 @@ func run(seed int64, n int, dir string, _ []string) {
 	defer os.RemoveAll(root)
 
 	stmts := 0
+	scanned := false
 	for seq := 0; stmts < n; seq++ {
 		r := dml.NewSequence(g, o, root, seq, true, 400)
 		L := 1 + g.Intn(8)
+		abandon := false
+		// cancellation at EVERY position of a multi-target statement (the first time the tables allow it, and
+		// then for one sequence in six): the statement is re-run with the context failing at the 1st, 2nd, …
+		// ctx.Err() call until it completes; after every failed attempt nothing may have changed
+		if len(r.Tabs) >= 2 && (!scanned || g.Intn(8) == 0) {
+			var st, fallback *dml.Stmt
+			for tries := 0; tries < 400 && st == nil; tries++ {
+				c := r.Gen(false)
+				if c != nil && (c.Kind == "deletem" || c.Kind == "updatem") && len(c.Targets) == 2 &&
+					r.Tab(c.Targets[0]).NextID <= 20 && r.Tab(c.Targets[1]).NextID <= 20 {
+					if c.Kind == "deletem" {
+						st = c
+					} else if fallback == nil {
+						fallback = c
+					}
+				}
+			}
+			if st == nil {
+				st = fallback
+			}
+			if st != nil {
+				scanned = true
+				saved := r.CPU
+				r.SetCPU(1)
+				for at := int64(1); at <= 400; at++ {
+					out := r.Exec(st, at)
+					stmts++
+					o.Count("fault:cancel_scan")
+					if out.Err == nil {
+						r.TwinExec(st)
+						o.Count("cancel_scan_completed")
+						break
+					}
+					o.NonTrivial(fmt.Sprintf("scan:%s:%d:E%d", st.Kind, at, dml.ErrNum(out.Err)))
+					if len(out.Failed) > 0 {
+						abandon = true
+						break
+					}
+				}
+				r.SetCPU(saved)
+			}
+		}
+		if abandon {
+			// one defect, one report: the tables of this sequence no longer agree with the control run
+			r.Close()
+			continue
+		}
 	steps:
 		for i := 0; i < L; i++ {
 			nf := 1 + g.Intn(2)
@@ -101,6 +149,7 @@ func run(seed int64, n int, dir string, _ []string) {
 				}
 				if len(out.Failed) > 0 {
 					// one defect, one report: drop the rest of this sequence
+					abandon = true
 					break steps
 				}
 			}
@@ -109,8 +158,10 @@ func run(seed int64, n int, dir string, _ []string) {
 				r.Commit()
 			}
 		}
-		r.CompareTwin("end of sequence")
-		r.Commit()
+		if !abandon {
+			r.CompareTwin("end of sequence")
+			r.Commit()
+		}
 		r.Close()
 	}
 }
